@@ -99,10 +99,22 @@ MemBad(e) == IF ~e.alive THEN "server.died"
              ELSE IF e.stored + 2 * e.maxrec < e.limit THEN "evicted.far.below.the.limit"
              ELSE ""
 
+(* --- CAS uniqueness across keys (C02) --------------------------------------- *)
+(* every thread owns a key; the CAS counter is shared: no acknowledged CAS is one the key has carried before, and a    *)
+(* conditional store with a CAS that later stores of the key have superseded is never accepted                          *)
+CasBad(e) == IF \E i \in 1..e.threads : e.unanswered[i] > 0 THEN "casuniq.unanswered"
+             ELSE IF \E i \in 1..e.threads : e.dups[i] > 0 THEN "cas.reissued.within.a.lifetime"
+             ELSE IF \E i \in 1..e.threads : e.stale_ok[i] > 0 THEN "stale.cas.accepted"
+             ELSE IF \E i \in 1..e.threads : e.acks[i] = 0 THEN "casuniq.nothing.acknowledged"
+             ELSE ""
+
 Step ==
     /\ l <= N /\ l' = l + 1
     /\ LET e == Rec[l] IN
-       IF e.e = "memprobe" THEN
+       IF e.e = "casuniq" THEN
+            IF CasBad(e) # "" THEN viol' = Append(viol, [line |-> l, tags |-> {"C02", "C03"}, rule |-> CasBad(e)]) /\ UNCHANGED cov
+            ELSE cov' = Count(cov, "cas.unique.across.keys") /\ UNCHANGED viol
+       ELSE IF e.e = "memprobe" THEN
             IF MemBad(e) # "" THEN viol' = Append(viol, [line |-> l, tags |-> {"C14", "C15", "C20"}, rule |-> MemBad(e)]) /\ UNCHANGED cov
             ELSE cov' = Count(cov, "memory.limit.enforced") /\ UNCHANGED viol
        ELSE IF e.e # "hammer" THEN UNCHANGED <<viol, cov>>
